@@ -57,6 +57,7 @@ func RunC10(tier string) int {
 		run.Count("steps_released", v.Steps)
 		run.Count("critical_section_entries", v.Entered)
 		run.Count("processes_killed", v.Kills)
+		run.Count("owner_scheduled_after_unfair_wait", v.FairnessForced)
 		run.Count("pre_existing:"+pe, 1)
 		if v.Inconclusive != "" {
 			run.Inconclusive(v.Inconclusive)
